@@ -17,6 +17,7 @@ RULE = ('Every base type with a fixed universal tag x tag stacks: depth 0..1 ove
         'bit); decode with the type accepts; decode with every single-position perturbation of the effective tags (class '
         'changed, number +-1 / across 30|31, 127|128) raises PyAsn1Error; tag-set algebra (length, constructed wrappers, '
         'UNIVERSAL refused). Non-trivial = at least one tag in the stack; distinct = distinct (base type, stack).')
+RULE += (' ' + 'Also: tag numbers up to 2^200, class and number perturbed together, and the guided encoder - a value object of the untagged twin type encoded with asn1Spec=T gives the bytes of the value of T (BER and DER).')
 ASSUMPTIONS = ['identifier octets are parsed by pv/core/x690.py (no pyasn1 code)']
 BUDGET = {'quick': 100, 'thorough': 1500}
 MIN_NONTRIVIAL = {'quick': 500, 'thorough': 5000}
